@@ -8,7 +8,7 @@ pub fn err_str(e: &Error) -> &'static str {
         Error::Sort => "err:sort",
         Error::DivideByZero => "err:div0",
         Error::ExecutorScalar(_) => "err:scalar",
-        Error::AccessUnmappedMemory(_) => "err:unmapped",
+        Error::AccessUnmappedMemory(_) | Error::ExecutorInvalidAddress => "err:unmapped",
         Error::UnhandledIntrinsic(_) => "err:intrinsic",
         Error::ExecutorNoValidLocation | Error::ExecutorNoEdgeCondition => "err:noedge",
         Error::TooManyAddressBits => "err:addrbits",
